@@ -58,6 +58,8 @@ def scan_trusted(jobs):
         if j.dfcc:
             for f, c in j.dfcc.get("replace", []):
                 out.add("callee replaced by its contract: %s (contract %s)" % (f, c or f))
+        for f in j.remove_bodies:
+            out.add("callee body removed (nondeterministic result, no side effect; unreachable when the contract holds): %s" % f)
         if j.harness in seen:
             continue
         seen.add(j.harness)
